@@ -167,7 +167,7 @@ class Prop:
         failing = [v for v in violations if v.failing_input]
         seen = set()
         for v in failing[:3]:
-            if self.run_bin and v.case and not v.case.startswith("#"):
+            if self.run_bin and v.case and not v.case.startswith("#") and self.reexecutable(v.case):
                 v.case = self.shrink(v.case, lambda imp, oracle, model: "FAIL" in oracle)
                 v.impl, v.oracle, v.model = core.eval_case(self.run_bin, v.case)
             if v.case not in seen:
@@ -179,7 +179,7 @@ class Prop:
         dis = [v for v in violations if v.kind == "tie" and v.case]
         if dis:
             v = dis[0]
-            if self.run_bin and not v.case.startswith("#") and self.compare_possible():
+            if self.run_bin and not v.case.startswith("#") and self.compare_possible() and self.reexecutable(v.case):
                 v.case = self.shrink(v.case, lambda imp, oracle, model: imp != model)
                 v.impl, v.oracle, v.model = core.eval_case(self.run_bin, v.case)
             out.append(v)
@@ -189,6 +189,10 @@ class Prop:
             v.extra = dict(v.extra, all_broken=[x.what for x in others])
             out.append(v)
         return out
+
+    def reexecutable(self, case):
+        """recorded many-thread histories cannot be re-executed deterministically: kept as recorded"""
+        return not case.startswith("vq hist")
 
     def compare_possible(self):
         return os.path.exists(core.DRIVER)
